@@ -13,6 +13,14 @@ import taskset_common as tc
 
 WHAT = 'captured exceptions are delivered exactly once by the first wait/tryWait observing completion; accounting survives throwers'
 
+ALWAYS = [
+    # deterministic (no pool threads): a thrower on the bulk INLINE path (invokeInline catches and captures), the rest of the bulk is
+    # dropped because the capture cancels the set; wait rethrows once, the second wait reports cancellation
+    'mult=1;sets=ts.1.0;throws=2;d1=newpool0,new1,bulk1.1.3,wait1,wait1,del1,delpool',
+    'mult=1;sets=ctsH.1.0;throws=1,2;d1=newpool0,new1,bulk1.1.2,trywait1.1,trywait1.1,wait1,del1,delpool',
+    # thrower run inline by schedule(): propagates to the caller, nothing captured; thrower in a package: captured
+    'mult=1;sets=ts.1.0;throws=2,3;d1=newpool0,new1,bulkfq1.1.1,sched1.2,wait1,schedfq1.3,wait1,wait1,del1,delpool',
+]
 FIXED = [
     'mult=32;sets=ctsL.4.0;throws=1,2,3;d1=newpool2,new1,schedfq1.1,schedfq1.2,schedfq1.3,trywait1.2,wait1,wait1,trywait1.1,del1,delpool',
     'mult=1;sets=ts.1.0;throws=2,4;d1=newpool1,new1,sched1.1,sched1.2,bulk1.3.3,trywait1.0,wait1,wait1,del1,delpool',
@@ -36,10 +44,11 @@ def run(ctx):
     rng = random.Random(ctx.seed * 7919 + 5)
     g = tc.Gen(rng)
     n = 6 if thorough else 2
+    r0 = tc.run_scenarios(ctx, exe, ALWAYS, WHAT, 1, ctx.seed + 2, 'deterministic thrower programs')
     r1 = tc.run_scenarios(ctx, exe, FIXED if thorough else FIXED[ctx.seed % 2::2], WHAT, n, ctx.seed, 'fixed programs')
     scens = [g.single(throws=0.5, cancel=0.15, nested=0.4) for _ in range(60 if thorough else 9)]
     r2 = tc.run_scenarios(ctx, exe, scens, WHAT, n, ctx.seed + 1, 'random programs with throwers')
-    ctx.cov['executions'] = {'fixed': r1['executions'], 'random': r2['executions']}
+    ctx.cov['executions'] = {'deterministic': r0['executions'], 'fixed': r1['executions'], 'random': r2['executions']}
     ctx.sample({'programs': scens[:5]})
     if r1['traces']:
         ctx.sample_trace(r1['traces'][0], 14, skip=40)
